@@ -63,7 +63,11 @@ Definition row_of (c : pcase) (b : list (Z * Z)) : sx :=
   SL (map (fun x => SZ (match assoc x b with Some v => v | None => -9 end)) (c_sel c)).
 
 (* the query around the condition: conjuncts that bind c_pre first (each enumerates its variable once, in order),
-   then the predicate variable under each of those bindings; rows = the selected variables of the true results *)
+   then the predicate variable under each of those bindings; rows = the selected variables of the true results.
+   Selection step (QueryObjectDescriptor.evaluate_selected_variables, as of 32abf51: lazy nested loops, each selected
+   expression evaluated under the bindings produced by the ones before it): the harness only selects variables that
+   the condition has bound, and a bound variable yields exactly one result (its binding) under any bindings that
+   extend the condition's, so both the threaded loops and the earlier itertools.product give the one row [row_of]. *)
 Definition run_symbolic (c : pcase) (kwargs : list (Z * arg))
            (ev : list (Z * arg) -> list (Z * Z) -> list (list (Z * Z) * list (Z * Z) * bool)) : sx :=
   let results := flat_map (ev kwargs) (cands (w_dom c) [] (c_pre c)) in
